@@ -206,6 +206,12 @@ class AbsInt:
                         self.types[p] = it
                         self.clamp_type(st, p)
                 return ('lin', p, 0)
+        if k == 'un' and a[0] == '-':
+            v = self.lin(a[1], st)
+            if v[0] == 'lin' and v[1] is None:
+                return ('lin', None, -v[2])
+            lo, hi = self.range_of(v, st)
+            return ('itv', -hi, -lo)
         if k == 'cast':
             v = self.lin(a[2], st)
             lo, hi = self.range_of(v, st)
